@@ -333,7 +333,8 @@ def execute (s : SchemaD) (doc : Doc) (vars : Vars) (w : World) (opname : Option
     match rootType s op.kind with
     | none => .abort "operation"
     | some root =>
-      if op.kind == "subscription" then .failed (.internal "RuntimeError")
+      -- `execute` raises InvalidOperationError for subscriptions (fix X5): reported as a response error
+      if op.kind == "subscription" then .abort "operation"
       else
         match executeFields s doc vars w cf fuel root [] op.sels with
         | .ok (d, es) => .result d es
